@@ -18,7 +18,7 @@ CFG = {
             "SignHashWithPassphrase/SignTxWithPassphrase/Delete judged step by step, incl. Unlock/TimedUnlock with a wrong passphrase on an ALREADY unlocked "
             "account (indefinitely and timed) (every file the keystore writes must carry its address); EncryptKey "
             "output recomputed by the model; unlock-state histories (random Unlock / TimedUnlock long+short / Lock / wrong-pass / Update / Export / Sign* sequences: every signature must "
-            "be byte-equal to the stored key's, locked => ErrLocked); Update over longer previous content (other scrypt n/p via a second KeyStore on the directory, indented, v1, pbkdf2 files: the file must be "
+            "be byte-equal to the stored key's, locked => ErrLocked; each history is also replayed by the model driver with KsState.step and compared observation by observation); Update over longer previous content (other scrypt n/p via a second KeyStore on the directory, indented, v1, pbkdf2 files: the file must be "
             "exactly the new encoding); 6 goroutines encrypting / storing / updating / exporting concurrently with per-call n,p (every blob must carry its own parameters and open "
             "with its own passphrase); whole-file substitution (A's file overwritten by B's file / B re-encrypted under A's passphrase / B's file with A's address, "
             "then Unlock, TimedUnlock, SignHash/TxWithPassphrase, Export, Update, Delete on A must fail or use A's key); read-side legacy files whose plaintext has the key's "
@@ -27,6 +27,7 @@ CFG = {
     "tie": {"keystore.DecryptKey (decryptKeyV3, decryptKeyV1, getKDFKey, ensureInt)": "corr (Go vs Model.Keystore.decryptKey; KDF/AES/address values supplied by the harness, Keccak recomputed in Lean)",
             "keyStorePassphrase.GetKey via KeyStore.Unlock": "corr (Go vs Model.Keystore.getKey) + direct Spec judgement (signer of a signature made after Unlock)",
             "KeyStore.Import": "corr (Go vs Model.Keystore.importAccount) + direct Spec judgement",
+            "KeyStore unlocked table (TimedUnlock / Lock / expire / Update / SignHash / SignTx)": "corr (Go histories vs Model.Keystore.KsState.step replayed in Driver/C20 on stand-in primitives) + direct judgement",
             "keystore.EncryptKey": "corr (file recomputed by Model.Keystore.encryptKey from key, passphrase, salt, iv, n, p)",
             "encoding/json binding of the key file": "overlay accessor VerifAbstract unmarshals into the repo's own encryptedKeyJSONV1/V3 types; dispatch on the version is in the model",
             "KeyStore.NewAccount/ImportECDSA/Export/Update/Delete/SignHashWithPassphrase/SignTxWithPassphrase": "direct Spec judgement on the real code per step"},
